@@ -249,7 +249,9 @@ def run_property(pid, tier):
         from . import scenarios, edfalsify
         t1 = time.time()
         r = scenarios.run(rounds=4, big=True, seed=seed, only=SUITES_FOR.get(pid, []) or ["s_util"])
-        thorough_standins.append("differential scenarios %s vs independent reference: %s (%.0fs) [BOUNDED]" % (SUITES_FOR.get(pid), "no mismatch" if not r.get("mismatch") else "MISMATCH", time.time() - t1))
+        thorough_standins.append("differential scenarios %s vs independent reference: %s (%.0fs%s) [BOUNDED]" % (
+            SUITES_FOR.get(pid), ("INCOMPLETE: " + str(r.get("error"))[:120]) if r.get("error") else ("no mismatch" if not r.get("mismatch") else "MISMATCH"),
+            time.time() - t1, (", %d session scenarios" % r["count"]) if r.get("count") else ""))
         if r.get("mismatch") and not str(r["mismatch"].get("kind", "")).startswith("suite-error") and not real_violations:
             o = dict(name="bounded-cross-check/%s" % r["mismatch"].get("kind"), kind="bounded-search", status="refuted", clause=None, tags=[pid], core=[],
                      model=r["mismatch"], goal=None, extra={"note": "thorough-tier differential scenario found a concrete failing input on the real code"})
